@@ -121,6 +121,9 @@ def check_passthrough(ctx, fi, self_cls, stats, rule="C07.R2"):
 
 def member_store_checks(ctx, rule="C07.R4"):
     M = ctx.model
+    # the key a member is stored under is the name it was given with `"name" / construct` (shared with C18.R3)
+    from . import C18 as _C18
+    _C18.renamed_init(ctx, rule)
     for cls in ("Struct", "Sequence", "FocusedSeq", "LazyStruct", "Union"):
         # ---- parse: named member stored in the nested context after its SUB
         fi, paths = method_paths(ctx, cls, "_parse")
